@@ -601,7 +601,7 @@ def r5_slice_match(lines, origin, repo, relfile):
     return out, oo, notes
 
 
-def r6_for_continue(lines, origin, repo, relfile):
+def r6_for_continue(lines, origin, repo, relfile, all_for=False):
     """for x in E { B }   where `continue` occurs in B (and targets this loop)
          ->  match IntoIterator::into_iter(E) { mut it__ =>
              loop {
@@ -658,6 +658,8 @@ def r6_for_continue(lines, origin, repo, relfile):
             raise RewriteError("R6: labelled or value `continue` at %s:%d" % (relfile, ln))
         if inner not in targets:
             targets.append(inner)
+    if all_for:
+        targets = [lp for lp in loops if lp[1] == 'for']
     if not targets:
         return list(lines), list(origin), []
     if re.search(r'\b(it__|v__)\b', text):
@@ -792,7 +794,15 @@ def r10_option_closure(lines, origin, repo, relfile):
     return out, list(origin), notes
 
 
+def r6a_for_all(lines, origin, repo, relfile):
+    """R6 applied to every `for` loop of the item (Verus offers no name for the ghost iterator of a `for` over
+    a slice/Vec reference unless the loop is written in its desugared form)"""
+    out, oo, notes = r6_for_continue(lines, origin, repo, relfile, all_for=True)
+    return out, oo, [n.replace('R6 ', 'R6a ', 1) for n in notes]
+
+
 RULES = {
+    'R6a': r6a_for_all,
     'R10': r10_option_closure,
     'RSHADOW': rshadow,
     'R8': r8_loop_brace,
